@@ -712,6 +712,12 @@ func (repo *GoGitRepo) UpdateRef(ref string, hash Hash) error {
 
 // RemoveRef will remove a Git reference
 func (repo *GoGitRepo) RemoveRef(ref string) error {
+	// Removing a reference that lives in packed-refs rewrites that file. go-git only detects a
+	// concurrent rewrite through the modification time of the file: two removals racing (the
+	// sub-caches remove their entities concurrently) can lose one of them.
+	repo.rMutex.Lock()
+	defer repo.rMutex.Unlock()
+
 	return repo.r.Storer.RemoveReference(plumbing.ReferenceName(ref))
 }
 
